@@ -116,7 +116,7 @@ EXPLANATION = {
            "it; final=True flush emitted before completion; defaults incremental=True; json.py does not override them.",
     "C18": _COMMON + "Decided clauses (narrow): the unescape pairs of parse_line are the inverses of dump's escape pairs; defaults of "
            "separator/escapechar agree and reach join/split; type table (None <-> '', bool <-> 'True'); DP-7 the float parser is not a "
-           "separable sum f(int part) + g(fraction part); CS-2 the quoted-field merger consumes every split piece exactly once; CS-3 its decision table over 11 abstract pieces x {field open, closed} is the inverse of the writer's quoting and no path indexes beyond a piece; FR-3 file.read emits every non-empty chunk once, in order, and stops at the first empty chunk; FH-1 file.write closes the handle it opened itself (never a caller's) before forwarding the terminal event. Not decided: fields ending with the escape character (known to fail at run time).",
+           "separable sum f(int part) + g(fraction part); CS-2 the quoted-field merger consumes every split piece exactly once; CS-3 its decision table over 15 abstract pieces (by length class, first / last character and the parity of the escape run before a final quote) x {field open, closed} is the inverse of the writer's quoting and no path indexes beyond a piece; FR-3 file.read emits every non-empty chunk once, in order, and stops at the first empty chunk; FH-1 file.write closes the handle it opened itself (never a caller's) before forwarding the terminal event. FR-1 line framing of the file reader.",
     "C19": _COMMON + "Decided clause: AG-7 for each compression setting the stage list of load_from_file(lines=True) is the reversed "
            "stage list of dump_to_file through the inverse table; compression tables, modes, encoding and newline defaults agree; plus the stage rules of C15 (line framing), C16 (codecs) and C17 (text codec) "
            "for the stages the pipeline is composed of, and FR-3 / FH-1 for the file reader and writer.",
